@@ -1304,7 +1304,7 @@ Proof.
   inversion Hnd as [|? ? Hn Hr]; subst. destruct Hin as [->|Hin].
   - cbn [fst snd]. rewrite fold_setindex_other.
     + apply tx_get_setindex0_same.
-    + intros c Hc0 Heq. apply itoa_inj in Heq. apply Hn. rewrite <- Heq. apply in_map. exact Hc0.
+    + intros c Hc0 Heq. apply itoa_inj in Heq. apply Hn. cbn [fst]. rewrite <- Heq. apply (in_map fst). exact Hc0.
   - apply IH; assumption.
 Qed.
 
